@@ -432,8 +432,8 @@ Proof. induction evs as [|[r|s] evs IH]; cbn; congruence. Qed.
 
 Lemma w_rec_recs F w r its w' : w_rec F w r = Some (its, w') -> recs_of its = [r] /\ raws_of its = [].
 Proof.
-  destruct F, w; cbn; intros H; try (inversion H; subst; cbn; auto; fail).
-  destruct (prefix_agree first_keys (keys r)); inversion H; subst; cbn; auto.
+  destruct F, w; cbn; intros H; try (inversion H; subst; cbn; auto; fail);
+    destruct (prefix_agree first_keys (keys r)); inversion H; subst; cbn; auto.
 Qed.
 
 Lemma w_end_recs F w : recs_of (w_end F w) = [] /\ raws_of (w_end F w) = [].
@@ -667,40 +667,46 @@ Definition has_rec (evs : list event) : bool := match recs_of_events evs with []
 Lemma count_app p a b : count p (a ++ b) = count p a + count p b.
 Proof. unfold count. now rewrite filter_app, app_length. Qed.
 
+Definition nblank (F : fmt) (n : nat) : nat := match F with FXtab => n | _ => 0 end.
+
 Lemma wrun_started_counts F fk evs its w :
   wrun F (WStarted fk) evs = Some (its, w) ->
-  count is_header its = 0 /\ count is_open its = 0 /\ count is_close its = 0 /\ exists fk', w = WStarted fk'.
+  count is_header its = 0 /\ count is_open its = 0 /\ count is_close its = 0 /\
+  count is_blank its = nblank F (len (recs_of_events evs)) /\ exists fk', w = WStarted fk'.
 Proof.
-  revert its w. induction evs as [|[r|s] evs IH]; cbn; intros its w H.
-  - inversion H; subst. cbn. eauto.
+  revert its w. induction evs as [|[r|s] evs IH]; cbn [wrun recs_of_events]; intros its w H.
+  - inversion H; subst. destruct F; cbn; eauto 10.
   - destruct (w_rec F (WStarted fk) r) as [[i1 w1]|] eqn:E1; [|discriminate].
     destruct (wrun F w1 evs) as [[i2 w2]|] eqn:E2; [|discriminate]. inversion H; subst.
-    assert (Hw1 : w1 = WStarted fk /\ count is_header i1 = 0 /\ count is_open i1 = 0 /\ count is_close i1 = 0).
-    { destruct F; cbn in E1; try (inversion E1; subst; cbn; auto; fail).
-      destruct (prefix_agree fk (keys r)); inversion E1; subst; cbn; auto. }
-    destruct Hw1 as (-> & h1 & h2 & h3). destruct (IH _ _ E2) as (g1 & g2 & g3 & g4).
-    rewrite !count_app. repeat split; try lia. exact g4.
+    assert (Hw1 : w1 = WStarted fk /\ count is_header i1 = 0 /\ count is_open i1 = 0 /\ count is_close i1 = 0 /\
+                  count is_blank i1 = nblank F 1).
+    { destruct F; cbn in E1; try (inversion E1; subst; cbn; auto; fail);
+        destruct (prefix_agree fk (keys r)); inversion E1; subst; cbn; auto. }
+    destruct Hw1 as (-> & h1 & h2 & h3 & h4). destruct (IH _ _ E2) as (g1 & g2 & g3 & g4 & g5).
+    rewrite !count_app, h1, h2, h3, h4, g1, g2, g3, g4. repeat split; try lia; [|exact g5].
+    destruct F; cbn; lia.
   - destruct (wrun F (WStarted fk) evs) as [[i2 w2]|] eqn:E2; [|discriminate]. inversion H; subst.
-    destruct (IH _ _ eq_refl) as (g1 & g2 & g3 & g4). unfold count in *. cbn. auto.
+    destruct (IH _ _ eq_refl) as (g1 & g2 & g3 & g4 & g5). unfold count in *. cbn. auto.
 Qed.
 
-(* one header (CSV) / one bracket pair (JSON) iff at least one record, nothing of the kind otherwise *)
+(* one header (CSV, TSV) / one bracket pair (JSON) iff at least one record; XTAB: one empty line BETWEEN records *)
 Theorem single_doc_shape F evs d :
   single_doc F evs = Some d ->
   let one := if has_rec evs then 1 else 0 in
-  count is_header d = (match F with FCsv => one | _ => 0 end) /\
+  count is_header d = (match F with FCsv | FTsv => one | _ => 0 end) /\
   count is_open d = (match F with FJson => one | _ => 0 end) /\
-  count is_close d = (match F with FJson => one | _ => 0 end).
+  count is_close d = (match F with FJson => one | _ => 0 end) /\
+  count is_blank d = nblank F (pred (len (recs_of_events evs))).
 Proof.
   unfold single_doc. destruct (wrun F WFresh evs) as [[its w]|] eqn:E; [|discriminate].
   intros H. inversion H; subst. clear H. cbn zeta.
-  revert its w E. induction evs as [|[r|s] evs IH]; cbn; intros its w E.
+  revert its w E. induction evs as [|[r|s] evs IH]; cbn [wrun recs_of_events]; intros its w E.
   - inversion E; subst. destruct F; cbn; auto.
   - destruct (w_rec F WFresh r) as [[i1 w1]|] eqn:E1; [|discriminate].
     destruct (wrun F w1 evs) as [[i2 w2]|] eqn:E2; [|discriminate]. inversion E; subst.
     assert (H1 : w1 = WStarted (keys r)) by (destruct F; cbn in E1; inversion E1; reflexivity).
-    subst w1. destruct (wrun_started_counts _ _ _ _ _ E2) as (g1 & g2 & g3 & fk' & ->).
-    unfold has_rec. cbn [recs_of_events]. rewrite !count_app, g1, g2, g3.
+    subst w1. destruct (wrun_started_counts _ _ _ _ _ E2) as (g1 & g2 & g3 & g4 & fk' & ->).
+    unfold has_rec. cbn [recs_of_events len pred]. rewrite !count_app, g1, g2, g3, g4.
     destruct F; cbn in E1; inversion E1; subst; cbn; auto.
   - destruct (wrun F WFresh evs) as [[i2 w2]|] eqn:E2; [|discriminate]. inversion E; subst.
     specialize (IH _ _ eq_refl). unfold has_rec in *. cbn [recs_of_events]. unfold count in *. cbn. exact IH.
@@ -763,3 +769,286 @@ Qed.
 (* without the tee, the reader is allowed to stop early: this is what the tee's special case prevents *)
 Lemma head_alone_may_stop n cut recs : run_chain [VHead n] cut recs = ([], firstn n (firstn cut recs)).
 Proof. reflexivity. Qed.
+
+(* ================================================================ part 7: the open set is the c most recently used targets *)
+Lemma recency_snoc ts t : recency (ts ++ [t]) = t :: rm t (recency ts).
+Proof. unfold recency. now rewrite fold_left_app. Qed.
+
+Lemma rm_notin t l : ~ In t l -> rm t l = l.
+Proof.
+  induction l as [|x l IH]; cbn; intros H; [reflexivity|].
+  destruct (beqb_spec t x) as [->|Hne]; cbn; [exfalso; apply H; now left|]. f_equal. apply IH. tauto.
+Qed.
+
+Lemma rm_nodup t l : NoDup l -> NoDup (rm t l).
+Proof. intros H. unfold rm. now apply NoDup_filter. Qed.
+
+Lemma recency_nodup ts : NoDup (recency ts).
+Proof.
+  induction ts as [|t ts IH] using rev_ind; [constructor|].
+  rewrite recency_snoc. constructor; [|now apply rm_nodup]. intros H. apply In_rm in H. tauto.
+Qed.
+
+Lemma names_drop_rm t l : NoDup (names l) -> names (drop t l) = rm t (names l).
+Proof.
+  induction l as [|[t' w] l IH]; cbn; intros Hnd; [reflexivity|].
+  inversion Hnd as [|? ? Hni Hnd']; subst.
+  destruct (beqb_spec t t') as [->|Hne]; cbn.
+  - symmetry. now apply rm_notin.
+  - f_equal. now apply IH.
+Qed.
+
+(* removing t from the first n elements of a duplicate-free list that contain it = first n-1 of the list without t *)
+Lemma firstn_In' {A} n (l : list A) x : In x (firstn n l) -> In x l.
+Proof. revert l. induction n; intros [|y l]; cbn; try tauto. intros [E|E]; auto. Qed.
+
+Lemma rm_firstn_in t n l : NoDup l -> In t (firstn n l) -> rm t (firstn n l) = firstn (n - 1) (rm t l).
+Proof.
+  revert n. induction l as [|x l IH]; intros n Hnd Hin; [destruct n; destruct Hin|].
+  destruct n as [|n]; [destruct Hin|]. inversion Hnd as [|? ? Hni Hnd']; subst.
+  replace (S n - 1) with n by lia. cbn [firstn] in *.
+  cbn [rm filter]. destruct (beqb_spec t x) as [->|Hne]; cbn [negb].
+  - fold (rm x (firstn n l)). fold (rm x l).
+    rewrite rm_notin by (intros H; apply Hni; eapply firstn_In'; eauto).
+    now rewrite rm_notin.
+  - fold (rm t (firstn n l)). fold (rm t l). destruct Hin as [E|Hin]; [congruence|].
+    rewrite IH by assumption. destruct n as [|n]; [destruct Hin|]. replace (S n - 1) with n by lia. reflexivity.
+Qed.
+
+Lemma firstn_rm_notin t n l : ~ In t (firstn n l) -> firstn n (rm t l) = firstn n l.
+Proof.
+  revert n. induction l as [|x l IH]; intros n H; [now destruct n|].
+  destruct n as [|n]; [reflexivity|]. cbn [firstn] in H. cbn [rm filter].
+  destruct (beqb_spec t x) as [->|Hne]; cbn [negb]; [exfalso; apply H; now left|].
+  fold (rm t l). cbn [firstn]. f_equal. apply IH. intros Hin. apply H. now right.
+Qed.
+
+Lemma removelast_firstn_len {A} n (l : list A) : len (firstn (S n) l) = S n -> removelast (firstn (S n) l) = firstn n l.
+Proof. intros H. apply removelast_firstn. rewrite firstn_length in H. lia. Qed.
+
+Lemma firstn_In_S {A} n (l : list A) x : In x (firstn n l) -> In x (firstn (S n) l).
+Proof.
+  revert l. induction n as [|n IH]; intros [|y l] H; cbn in *; try tauto.
+  destruct H as [H|H]; [now left|right; now apply IH].
+Qed.
+
+(* names of the other open handlers after getOutputHandlerFor *)
+Lemma acquire_names md c F t m :
+  NoDup (names (m_open m)) ->
+  let '(ws, rest, ev, fs) := acquire md c F t m in
+  names rest =
+  match lookup t (m_open m) with
+  | Some _ => rm t (names (m_open m))
+  | None => if is_pipe md then names (m_open m)
+            else if Nat.leb c (len (m_open m)) then removelast (names (m_open m)) else names (m_open m)
+  end.
+Proof.
+  intros Hnd. unfold acquire, make_room.
+  destruct (lookup t (m_open m)) as [w|] eqn:El.
+  - rewrite El. now apply names_drop_rm.
+  - destruct (is_pipe md); [now rewrite El|].
+    destruct (Nat.leb c (len (m_open m))); [|now rewrite El].
+    unfold evict_last. destruct (split_last (m_open m)) as [[rest [tl wtl]]|] eqn:E.
+    + cbn. apply split_last_spec in E.
+      assert (Hl : lookup t rest = None).
+      { apply lookup_none. intros Hin. apply lookup_none in El. apply El. rewrite E, names_app. apply in_or_app. now left. }
+      rewrite Hl, E, names_app. cbn. now rewrite removelast_last.
+    + rewrite El. apply split_last_none in E. now rewrite E.
+Qed.
+
+Theorem open_is_most_recent md c F ops fs0 :
+  is_pipe md = false -> m_err (run md c F ops fs0) = false ->
+  names (m_open (run md c F ops fs0)) = firstn (Nat.max c 1) (recency (targets_of ops)).
+Proof.
+  intros Hp. induction ops as [|o ops IH] using rev_ind; intros He.
+  - cbn. now destruct (Nat.max c 1).
+  - rewrite run_snoc in *. pose proof (err_monotone _ _ _ _ _ He) as He0. specialize (IH He0).
+    pose proof (run_book md c F ops fs0 He0) as B. set (m := run md c F ops fs0) in *.
+    destruct o as [t e]. rewrite targets_snoc, recency_snoc. cbn [fst].
+    set (L := recency (targets_of ops)) in *. set (C := Nat.max c 1) in *.
+    assert (HC : C = S (C - 1)) by (unfold C; lia).
+    assert (Hnames : names (m_open (step md c F m (t, e))) = t :: (let '(ws, rest, ev, fs) := acquire md c F t m in names rest)).
+    { destruct e as [r|s]; cbn in He |- *; unfold write_rec, write_str in *; rewrite He0 in *.
+      - destruct (acquire md c F t m) as [[[ws rest] ev] fs]. destruct (w_rec F ws r) as [[its ws']|]; [reflexivity|cbn in He; discriminate].
+      - destruct (acquire md c F t m) as [[[ws rest] ev] fs]. reflexivity. }
+    rewrite Hnames. pose proof (acquire_names md c F t m (b_nodup _ _ _ _ B)) as Ha.
+    destruct (acquire md c F t m) as [[[ws rest] ev] fs]. rewrite Ha, Hp. clear Ha Hnames.
+    rewrite HC at 1. cbn [firstn]. f_equal.
+    pose proof (recency_nodup (targets_of ops)) as HndL. fold L in HndL.
+    destruct (lookup t (m_open m)) as [w|] eqn:El.
+    + (* hit *) rewrite IH. apply rm_firstn_in; [exact HndL|]. rewrite <- IH. eapply lookup_some_in; eauto.
+    + apply lookup_none in El. rewrite IH in El.
+      assert (Hlen : len (m_open m) = len (firstn C L)) by (rewrite <- IH; unfold names; now rewrite map_length).
+      destruct (Nat.leb c (len (m_open m))) eqn:Ec.
+      * apply Nat.leb_le in Ec. rewrite IH.
+        destruct (Nat.eq_dec (len (firstn C L)) 0) as [Hz|Hnz].
+        -- (* nothing open: L is empty *)
+           assert (HL0 : L = []).
+           { destruct L as [|y L']; [reflexivity|]. rewrite HC in Hz. discriminate. }
+           rewrite HL0. cbn. now rewrite !firstn_nil.
+        -- (* the cache is full *)
+           assert (HlenC : len (firstn C L) = C).
+           { pose proof (b_cap _ _ _ _ B Hp) as Hcap. fold m in Hcap. fold C in Hcap. rewrite Hlen in Hcap, Ec.
+             unfold C in *. lia. }
+           rewrite HC in HlenC. rewrite HC at 1. rewrite removelast_firstn_len by exact HlenC.
+           symmetry. apply firstn_rm_notin. intros Hin. apply El. rewrite HC.
+           now apply firstn_In_S.
+      * apply Nat.leb_gt in Ec. rewrite IH.
+        assert (HL : firstn C L = L).
+        { apply firstn_all2. rewrite Hlen in Ec. destruct (Nat.le_gt_cases (len L) C) as [H|H]; [exact H|].
+          rewrite firstn_length_le in Ec by lia. unfold C in *. lia. }
+        rewrite HL in *. rewrite (rm_notin t L El).
+        symmetry. apply firstn_all2. rewrite Hlen in Ec. unfold C in *. lia.
+Qed.
+
+(* ================================================================ part 8: the repaired manager (keep the writer across eviction)
+   keeps ONE document per target for every format and any number of targets *)
+Lemma lookup_app t a b : lookup t (a ++ b) = match lookup t a with Some w => Some w | None => lookup t b end.
+Proof. induction a as [|[t' w] a IH]; cbn; [reflexivity|]. destruct (beqb t t'); auto. Qed.
+
+Lemma drop_app_in t a b w : lookup t a = Some w -> drop t (a ++ b) = drop t a ++ b.
+Proof.
+  induction a as [|[t' w'] a IH]; cbn; [discriminate|]. destruct (beqb t t'); [reflexivity|]. intros H. cbn. f_equal. auto.
+Qed.
+
+Lemma drop_app_notin t a b : lookup t a = None -> drop t (a ++ b) = a ++ drop t b.
+Proof.
+  induction a as [|[t' w'] a IH]; cbn; [reflexivity|]. destruct (beqb t t'); [discriminate|]. intros H. cbn. f_equal. auto.
+Qed.
+
+Lemma drop_notin t l : lookup t l = None -> drop t l = l.
+Proof.
+  induction l as [|[t' w'] l IH]; cbn; [reflexivity|]. destruct (beqb t t'); [discriminate|]. intros H. f_equal. auto.
+Qed.
+
+Definition comb (m : mgrR) : list (target * wstate) := r_open m ++ r_susp m.
+
+Lemma make_roomR_comb md c t m :
+  comb (make_roomR md c t m) = comb m /\ r_fs (make_roomR md c t m) = r_fs m.
+Proof.
+  unfold make_roomR. destruct (lookup t (r_open m)); [auto|]. destruct (is_pipe md); [auto|].
+  destruct (Nat.leb c (len (r_open m))); [|auto]. unfold evict_lastR.
+  destruct (split_last (r_open m)) as [[rest x]|] eqn:E; [|auto].
+  apply split_last_spec in E. unfold comb. cbn. rewrite E, <- app_assoc. auto.
+Qed.
+
+Lemma acquireR_view md c t m :
+  let '(ws, rest, susp, fs) := acquireR md c t m in
+  rest ++ susp = drop t (comb m) /\
+  ws = match lookup t (comb m) with Some w => w | None => WFresh end /\
+  fs = match lookup t (comb m) with
+       | Some _ => r_fs m
+       | None => if is_append md then r_fs m else upd t [] (r_fs m)
+       end.
+Proof.
+  unfold acquireR. destruct (make_roomR_comb md c t m) as [Hc Hf].
+  set (m1 := make_roomR md c t m) in *. rewrite <- Hc, <- Hf. unfold comb.
+  destruct (lookup t (r_open m1)) as [w|] eqn:E1.
+  - rewrite lookup_app, E1. rewrite (drop_app_in _ _ _ _ E1). auto.
+  - rewrite lookup_app, E1. rewrite (drop_app_notin _ _ _ E1).
+    destruct (lookup t (r_susp m1)) as [w|] eqn:E2; [auto|]. now rewrite (drop_notin _ _ E2).
+Qed.
+
+Lemma runR_snoc md c F ops o fs0 : runR md c F (ops ++ [o]) fs0 = stepR md c F (runR md c F ops fs0) o.
+Proof. unfold runR. now rewrite fold_left_app. Qed.
+
+Lemma errR_monotone md c F m o : r_err (stepR md c F m o) = false -> r_err m = false.
+Proof. unfold stepR. destruct (r_err m) eqn:E; [now rewrite E|reflexivity]. Qed.
+
+Record syncR (md : mode) (F : fmt) (fs0 : fstore) (ops : list op) (m : mgrR) : Prop := {
+  sr_nodup : NoDup (names (comb m));
+  sr_open : forall t, touched t ops = true ->
+            exists its ws, wrun F WFresh (events_of t ops) = Some (its, ws) /\
+                           lookup t (comb m) = Some ws /\ r_fs m t = base md fs0 t ++ its;
+  sr_rest : forall t, touched t ops = false -> r_fs m t = fs0 t /\ lookup t (comb m) = None
+}.
+
+Lemma syncR_step md c F fs0 ops o m :
+  syncR md F fs0 ops m -> r_err (stepR md c F m o) = false -> syncR md F fs0 (ops ++ [o]) (stepR md c F m o).
+Proof.
+  intros S He. pose proof (errR_monotone _ _ _ _ _ He) as He0. destruct o as [t e].
+  pose proof (acquireR_view md c t m) as Hv.
+  unfold stepR in *. rewrite He0 in *.
+  destruct (acquireR md c t m) as [[[ws0 rest] susp] fs]. destruct Hv as (Hcomb & Hws & Hfs).
+  (* state and file of t before the write *)
+  assert (Hpre : exists its0, wrun F WFresh (events_of t ops) = Some (its0, ws0) /\ fs t = base md fs0 t ++ its0 /\
+                              (forall x, x <> t -> fs x = r_fs m x)).
+  { destruct (touched t ops) eqn:Ht.
+    - destruct (sr_open _ _ _ _ _ S t Ht) as (its0 & w & Hw & Hl & Hf). rewrite Hl in Hws, Hfs. subst ws0 fs. eauto.
+    - destruct (sr_rest _ _ _ _ _ S t Ht) as [Hf Hl]. rewrite Hl in Hws, Hfs. subst ws0.
+      rewrite (events_untouched _ _ Ht). exists []. cbn. split; [reflexivity|]. rewrite app_nil_r. unfold base. subst fs.
+      destruct (is_append md); [split; [exact Hf|reflexivity]|]. split; [apply upd_same|]. intros x Hx. now apply upd_other. }
+  destruct Hpre as (its0 & Hw & Hft & Hoth).
+  assert (Hst : exists its ws',
+             (match e with
+              | ERec r => match w_rec F ws0 r with
+                          | Some (its, ws') => MgrR ((t, ws') :: rest) susp (upd t (fs t ++ its) fs) false
+                          | None => MgrR ((t, ws0) :: rest) susp fs true
+                          end
+              | EStr s => MgrR ((t, ws0) :: rest) susp (upd t (fs t ++ [IRaw s]) fs) false
+              end) = MgrR ((t, ws') :: rest) susp (upd t (fs t ++ its) fs) false /\
+             wrun F WFresh (events_of t ops ++ [e]) = Some (its0 ++ its, ws')).
+  { rewrite wrun_snoc, Hw. destruct e as [r|s].
+    - destruct (w_rec F ws0 r) as [[its ws']|]; [eauto|cbn in He; discriminate].
+    - eauto. }
+  destruct Hst as (its & ws' & Es & Hw'). rewrite Es in *. clear Es.
+  destruct (drop_nodup t (comb m) (sr_nodup _ _ _ _ _ S)) as [Hnd Hni].
+  split; unfold comb; cbn [r_open r_susp r_fs]; rewrite <- ?app_comm_cons, ?Hcomb.
+  - cbn. constructor; assumption.
+  - intros x Hx. rewrite touched_snoc in Hx. rewrite events_snoc. destruct (beqb_spec x t) as [Ext|Hxt]; [subst x|].
+    + exists (its0 ++ its), ws'. split; [exact Hw'|]. cbn. rewrite beqb_refl. split; [reflexivity|].
+      now rewrite upd_same, Hft, app_assoc.
+    + rewrite orb_false_r in Hx. destruct (sr_open _ _ _ _ _ S x Hx) as (i & w & H1 & H2 & H3).
+      exists i, w. rewrite app_nil_r. split; [exact H1|]. cbn. apply beqb_neq in Hxt as Hb. rewrite Hb.
+      rewrite lookup_drop_other, upd_other, Hoth by exact Hxt. auto.
+  - intros x Hx. rewrite touched_snoc in Hx. apply orb_false_iff in Hx. destruct Hx as [Hx Hb].
+    destruct (sr_rest _ _ _ _ _ S x Hx) as [Hf Hl]. cbn. rewrite Hb. apply beqb_neq in Hb.
+    rewrite lookup_drop_other, upd_other, Hoth by exact Hb. auto.
+Qed.
+
+Lemma runR_sync md c F fs0 ops :
+  r_err (runR md c F ops fs0) = false -> syncR md F fs0 ops (runR md c F ops fs0).
+Proof.
+  induction ops as [|o ops IH] using rev_ind; intros He.
+  - split; cbn; [constructor| |auto]. intros t H. discriminate.
+  - rewrite runR_snoc in *. apply syncR_step; [|exact He]. apply IH. eapply errR_monotone; eauto.
+Qed.
+
+Theorem one_document_repaired md c F ops fs0 :
+  r_err (runR md c F ops fs0) = false ->
+  forall t,
+  (touched t ops = true ->
+   exists d, single_doc F (events_of t ops) = Some d /\ finalR md c F ops fs0 t = base md fs0 t ++ d) /\
+  (touched t ops = false -> finalR md c F ops fs0 t = fs0 t).
+Proof.
+  intros He t. pose proof (runR_sync md c F fs0 ops He) as S. unfold finalR.
+  rewrite close_all_view by (cbn; apply (sr_nodup _ _ _ _ _ S)). cbn [m_fs m_open]. fold (comb (runR md c F ops fs0)).
+  split; intros Ht.
+  - destruct (sr_open _ _ _ _ _ S t Ht) as (its & ws & Hw & Hl & Hf).
+    rewrite Hl, Hf. unfold single_doc. rewrite Hw. eexists. split; [reflexivity|]. now rewrite app_assoc.
+  - destruct (sr_rest _ _ _ _ _ S t Ht) as [Hf Hl]. now rewrite Hl, Hf, app_nil_r.
+Qed.
+
+(* the repaired manager on the refutation witness: one header *)
+Lemma repaired_on_witness :
+  let ops := witness_ops 256 in
+  r_err (runR MWrite 256 FCsv ops empty_store) = false /\
+  count is_header (finalR MWrite 256 FCsv ops empty_store (wname 0)) = 1 /\
+  count is_open (finalR MWrite 256 FJson ops empty_store (wname 0)) = 1 /\
+  count is_close (finalR MWrite 256 FJson ops empty_store (wname 0)) = 1.
+Proof. cbn zeta. repeat split; vm_compute; reflexivity. Qed.
+
+(* XTAB beyond the capacity: the re-opened writer does not know a record was written before, the separating empty
+   line is missing and the two records read back as ONE (capacity 1, targets Aa Ab Aa) *)
+Lemma witness_xtab_small :
+  render FXtab (final MWrite 1 FXtab (witness_ops 1) empty_store (wname 0)) = B "a 0
+b x
+a 1
+b x
+" /\ (forall d, single_doc FXtab (events_of (wname 0) (witness_ops 1)) = Some d -> render FXtab d = B "a 0
+b x
+
+a 1
+b x
+").
+Proof. split; [vm_compute; reflexivity|]. intros d H. vm_compute in H. inversion H. vm_compute. reflexivity. Qed.
